@@ -211,8 +211,18 @@ pub fn gen_v1(t: &mut Tape) -> Case {
             gen::gen_port(t).to_string().into_bytes(),
         ];
     }
-    let base_line = p.render();
     let mut element = V1_ELEMENTS[t.below(V1_ELEMENTS.len() as u32) as usize];
+    if matches!(element, "source-address" | "destination-address") && v6 && t.coin() {
+        // the field that is going to be corrupted is spelled in any legal way, the 45-byte form included; the other one is
+        // shortened if the line would not fit
+        let i = if element == "source-address" { 0 } else { 1 };
+        let g = gen::gen_v6(t);
+        p.fields[i] = if t.coin() { gen::spell_v6_long_quad(g, t.chance(1, 4)).into_bytes() } else { gen::spell_v6(g, t).into_bytes() };
+        if p.render().len() > 104 {
+            p.fields[1 - i] = t.pick(&["::1", "::", "fe80::1", "2001:db8::2"]).as_bytes().to_vec();
+        }
+    }
+    let base_line = p.render();
     // one base in four is an UNKNOWN line (bare, or with ignored text); its corruptible elements are
     // the keyword, the protocol, the byte after the CR, the length and the encoding
     if t.chance(1, 4) {
@@ -242,7 +252,12 @@ pub fn gen_v1(t: &mut Tape) -> Case {
         "source-address" | "destination-address" => {
             let i = if element == "source-address" { 0 } else { 1 };
             let bad: Vec<&&str> = if v6 { gen::BAD_V6.iter().filter(|s| no_sep(s.as_bytes())).collect() } else { gen::BAD_V4.iter().filter(|s| no_sep(s.as_bytes())).collect() };
-            p.fields[i] = if t.chance(1, 5) {
+            p.fields[i] = if t.chance(2, 5) {
+                // a corruption derived from the valid field itself by one small edit (the base spells this field in any of
+                // the legal ways, the longest included)
+                let valid = String::from_utf8(p.fields[i].clone()).unwrap();
+                gen::corrupt_addr_text(t, &valid)
+            } else if t.chance(1, 4) {
                 // an address of the other family
                 if v6 {
                     gen::spell_v4(gen::gen_v4(t)).into_bytes()
@@ -256,8 +271,12 @@ pub fn gen_v1(t: &mut Tape) -> Case {
         "source-port" | "destination-port" => {
             let i = if element == "source-port" { 2 } else { 3 };
             let bad: Vec<&&str> = gen::BAD_PORTS.iter().filter(|s| no_sep(s.as_bytes())).collect();
-            p.fields[i] = match t.weighted(&[4, 1, 1]) {
+            p.fields[i] = match t.weighted(&[4, 1, 1, 3]) {
                 0 => bad[t.below(bad.len() as u32) as usize].as_bytes().to_vec(),
+                3 => {
+                    let valid = String::from_utf8(p.fields[i].clone()).unwrap();
+                    gen::corrupt_port_text(t, &valid)
+                }
                 1 => format!("+{}", gen::gen_port(t)).into_bytes(),
                 _ => format!("0{}", gen::gen_port(t)).into_bytes(),
             };
